@@ -97,13 +97,13 @@ func c03RulesFor(t reflect.Type) []string {
 func init() {
 	core.Register(&core.Prop{
 		ID: "C03",
-		Rule: "complete cross product: 33 field types (string, bool, all int/uint widths, floats, slices nil/empty/populated, arrays incl. [0]T, maps, struct value, *struct, **struct, pointers to scalars, slices/maps of structs) x their emptiness states x every rule applicable to the kind as 'R', 'required,R', 'R,required' and 'required' alone x entry points {struct tag, struct RM, Var, map[string]T, map[string]interface{}, []map, Url} " +
+		Rule: "complete cross product: 33 field types (string, bool, all int/uint widths, floats, slices nil/empty/populated, arrays incl. [0]T, maps, struct value, *struct, **struct, pointers to scalars, slices/maps of structs) x their emptiness states x every rule applicable to the kind as 'R', 'required,R', 'R,required' and 'required' alone x entry points {struct tag, struct RM, struct field between time.Time / string / integer neighbours, Var, map[string]T, map[string]interface{}, []map, Url} " +
 			"+ map/URL key absent / present-empty / present-non-empty / duplicated; verdict compared with the reference (required iff empty; no clause from any other rule on an empty value). distinct = distinct (type, state, rule text, entry point), all enumerated; non-trivial = value empty or rule list contains required",
 		Exhaustive: func(t core.Tier) bool { return true },
 		Shards:     func(t core.Tier) int { return 8 },
 		Run:        runC03,
 		Check: func(r *core.Result, t core.Tier) {
-			for _, k := range []string{"state|zero", "state|nil", "state|empty", "state|nonzero", "state|ptr-to-zero", "carrier|struct-tag", "carrier|struct-rm", "carrier|var", "carrier|map", "carrier|slice-map", "carrier|url-enc", "absent_key_cases"} {
+			for _, k := range []string{"state|zero", "state|nil", "state|empty", "state|nonzero", "state|ptr-to-zero", "carrier|struct-tag", "carrier|struct-rm", "carrier|struct-ctx", "carrier|var", "carrier|map", "carrier|slice-map", "carrier|url-enc", "absent_key_cases"} {
 				if r.Counters[k] < 10 {
 					r.Inconc(fmt.Sprintf("class under-observed: %s=%d", k, r.Counters[k]))
 				}
@@ -118,7 +118,6 @@ func init() {
 func runC03(c *core.Ctx) {
 	res := c.Res
 	res.Assume("empty = zero value of the type, or slice/array/map of length 0; for map and URL inputs a missing key or empty value")
-	res.Assume("time.Time fields are excluded here (C04: never validated)")
 	all := c03States()
 	names := []string{}
 	for k := range all {
@@ -137,7 +136,7 @@ func runC03(c *core.Ctx) {
 		}
 		for _, st := range states {
 			for _, text := range forms {
-				for _, cr := range []string{drive.StructTag, drive.StructRM, drive.Var, drive.MapT, drive.MapIface, drive.SliceMap, drive.UrlEnc} {
+				for _, cr := range []string{drive.StructTag, drive.StructRM, drive.StructCtx, drive.Var, drive.MapT, drive.MapIface, drive.SliceMap, drive.UrlEnc} {
 					n++
 					if !c.Mine(n) {
 						continue
@@ -152,7 +151,7 @@ func runC03(c *core.Ctx) {
 	seq := 0
 	plan := tagPlan{TagNames: []string{"valid"}, Style: gen.MsgUnique, MaxRules: 3, seq: &seq}
 	to := c02TypeOpts(plan)
-	R := c.Pick(400, 25000)
+	R := c.Pick(1500, 25000)
 	for i := 0; i < R; i++ {
 		t := gen.RandStruct(rng, to)
 		v := tunedFill(rng, t, "valid", 0.5)
@@ -214,9 +213,12 @@ func c03One(res *core.Result, cr string, t reflect.Type, st c03State, text strin
 	var exps []ref.Exp
 	entryErr := false
 	switch cr {
-	case drive.StructTag, drive.StructRM:
+	case drive.StructTag, drive.StructRM, drive.StructCtx:
 		if cr == drive.StructTag && !drive.TagSafe(text) {
 			return
+		}
+		if cr == drive.StructCtx && (!varSupports(t) || v.Kind() == reflect.Ptr) {
+			return // the neighbour carrier folds twin clauses by their one-segment path
 		}
 		// the reference walks the same one-field struct
 		var stt reflect.Type
